@@ -293,6 +293,10 @@ func defects() []*defect {
 		}),
 		// ---- presigned ---------------------------------------------------------------------------
 		pre("presign-expired", true, func(r *s3c.Req, k *kit) { r.Time = k.now.Add(-2 * time.Hour); r.Expires = 60 }),
+		// expired minutes ago (inside the window that header-signed requests are granted for clock skew - a presigned
+		// URL has no such allowance: its own Expires is the limit)
+		pre("presign-expired-9min-ago", true, func(r *s3c.Req, k *kit) { r.Time = k.now.Add(-10 * time.Minute); r.Expires = 60 }),
+		pre("presign-expired-3min-ago", true, func(r *s3c.Req, k *kit) { r.Time = k.now.Add(-5 * time.Minute); r.Expires = 120 }),
 		pre("presign-expires-over-7d", false, func(r *s3c.Req, k *kit) { r.Expires = 604800 + 86400 }),
 		pre("presign-sig-nibble", true, func(r *s3c.Req, k *kit) {
 			pos := k.rng.Intn(64)
